@@ -28,7 +28,7 @@ from antlr4 import *
 from .aggregator import DocumentationAggregator
 from cminx import Settings
 from .documentation_types import DocumentationType, ModuleDocumentation
-from .parser import ParserErrorListener, LexerErrorListener
+from .parser import ParserErrorListener, LexerErrorListener, CMakeSyntaxError
 from .parser.CMakeLexer import CMakeLexer
 from .parser.CMakeParser import CMakeParser
 from .rstwriter import RSTWriter, Directive
@@ -115,7 +115,17 @@ class Documenter(object):
 
         # Parse and lex the file, then walk the tree and aggregate the
         # documented commands
-        self.walker.walk(self.aggregator, self.parser.cmake_file())
+        tree = self.parser.cmake_file()
+
+        # The error listener re-raises the parser's own exception, which the generated code of
+        # every enclosing rule catches and recovers from. Without this check an error inside a
+        # command would hand back a tree that silently lacks everything after the error.
+        if self.parser.getNumberOfSyntaxErrors() > 0:
+            error = CMakeSyntaxError()
+            error.msg = f"{self.parser.getNumberOfSyntaxErrors()} syntax error(s) found while parsing the CMake file"
+            raise error
+
+        self.walker.walk(self.aggregator, tree)
 
         # All the documented commands are now stored in aggregator.documented,
         # each element is a namedtuple representing the type of documentation it is.
